@@ -24,7 +24,9 @@ pub type CaseFn = fn(&Value) -> Value;
 fn run_cases(inp: &str, outp: &str, f: CaseFn) {
     let rd = BufReader::new(std::fs::File::open(inp).expect("open input"));
     let mut out = std::fs::OpenOptions::new().append(true).create(true).open(outp).expect("open output");
-    std::panic::set_hook(Box::new(|_| {})); // panics of the code under test are data, not noise
+    if std::env::var_os("VH_PANIC_TRACE").is_none() {
+        std::panic::set_hook(Box::new(|_| {})); // panics of the code under test are data, not noise
+    }
     // fail fast on a badly broken tree: after VH_MAX_FAIL cases that the sub-command marked
     // "fail" (hang of a helper thread, panic ...) the remaining cases are skipped, not run
     let max_fail: usize = std::env::var("VH_MAX_FAIL").ok().and_then(|s| s.parse().ok()).unwrap_or(12);
